@@ -274,10 +274,10 @@ Qed.
 Definition ac_visible (check : bytes -> access -> option err) (r : bytes) : bool :=
   match check r AccessRead with None => true | Some _ => false end.
 
-Lemma ac_Repositories_represents check backend start xs oe :
-  check star AccessList = None ->
+Lemma ac_Repositories_represents check (listAll : bool) backend start xs oe :
+  (if listAll then @None err else check star AccessList) = None ->
   represents (backend start) xs oe ->
-  represents (ac_Repositories check backend start) (filter (ac_visible check) xs) oe.
+  represents (ac_Repositories check listAll backend start) (filter (ac_visible check) xs) oe.
 Proof.
   intros Hstar Hb S y s. unfold ac_Repositories. rewrite Hstar, Hb. clear Hb.
   revert s; induction xs as [|x xs IH]; intros s.
@@ -290,13 +290,11 @@ Proof.
     + rewrite seq_of_cons. destruct (y (inl x) s) as [s1 ok]. destruct ok; [apply IH | reflexivity].
 Qed.
 
+(* AccessChecker (listAll = false) whose policy rejects ("*", list): the error, once *)
 Lemma ac_Repositories_denied check backend start e :
   check star AccessList = Some e ->
-  represents (ac_Repositories check backend start) [] (Some e).
+  represents (ac_Repositories check false backend start) [] (Some e).
 Proof. intros H. unfold ac_Repositories. rewrite H. apply represents_ErrorSeq. Qed.
-
-Lemma select_check_star allow : select_check allow star AccessList = None.
-Proof. unfold select_check. destruct (allow star); [reflexivity|]. now rewrite beqb_refl. Qed.
 
 Lemma select_visible allow r : ac_visible (select_check allow) r = allow r.
 Proof. unfold ac_visible, select_check. destruct (allow r); reflexivity. Qed.
@@ -305,10 +303,10 @@ Proof. unfold ac_visible, select_check. destruct (allow r); reflexivity. Qed.
    with the backend's error if it has one *)
 Theorem select_filter allow backend start xs oe :
   represents (backend start) xs oe ->
-  represents (ac_Repositories (select_check allow) backend start) (filter allow xs) oe.
+  represents (ac_Repositories (select_check allow) true backend start) (filter allow xs) oe.
 Proof.
   intros H. rewrite (filter_ext allow (ac_visible (select_check allow))).
-  - apply ac_Repositories_represents; [apply select_check_star | exact H].
+  - apply ac_Repositories_represents; [reflexivity | exact H].
   - intros r. symmetry. apply select_visible.
 Qed.
 
@@ -770,10 +768,11 @@ Proof.
   - exists (wire err_n_too_large). split; auto. now rewrite Hw.
 Qed.
 
-(* the referrers hop: one request, the whole list or the error *)
+(* the referrers hop: one request, the whole list or (items dropped) the error *)
 Lemma refs_hop_represents wire it xs oe :
   represents it xs oe ->
-  represents (client_Referrers wire (handleReferrers it)) xs (option_map wire oe).
+  represents (client_Referrers wire (handleReferrers it))
+             (match oe with Some _ => [] | None => xs end) (option_map wire oe).
 Proof.
   intros H. unfold handleReferrers. rewrite (All_represents _ _ _ H).
   destruct oe as [e|]; cbn; [apply represents_ErrorSeq | apply represents_SliceSeq].
@@ -783,8 +782,11 @@ Lemma refs_hop_lgood wire nm fc aft it :
   (forall e, is_not_found (Some (wire e)) = is_not_found (Some e)) ->
   lgood nm fc aft it -> lgood nm fc aft (client_Referrers wire (handleReferrers it)).
 Proof.
-  intros Hw (xs & oe & Hrep & Hs & Hin & Hfc). exists xs, (option_map wire oe).
-  split; [now apply refs_hop_represents|]. split; auto. split; auto.
+  intros Hw (xs & oe & Hrep & Hs & Hin & Hfc).
+  exists (match oe with Some _ => [] | None => xs end), (option_map wire oe).
+  split; [now apply refs_hop_represents|].
+  split; [destruct oe; [apply ssorted_nil | auto]|].
+  split; [destruct oe; [intros x [] | auto]|].
   destruct fc.
   - destruct Hfc as [-> Hc]. auto.
   - destruct Hfc as (Hnm & e & -> & He). split; auto. exists (wire e). split; auto. now rewrite Hw.
@@ -795,7 +797,7 @@ Qed.
 
 Lemma select_lgood allow nm fc aft backend start :
   lgood nm fc aft (backend start) ->
-  lgood (filter allow nm) fc aft (ac_Repositories (select_check allow) backend start).
+  lgood (filter allow nm) fc aft (ac_Repositories (select_check allow) true backend start).
 Proof.
   intros (xs & oe & Hrep & Hs & Hin & Hfc). exists (filter allow xs), oe.
   split; [now apply select_filter|]. split; [now apply ssorted_filter|]. split.
@@ -839,13 +841,7 @@ Qed.
 
 Lemma merge_lgood nm0 fc0 nm1 fc1 aft it0 it1 :
   lgood nm0 fc0 aft it0 -> lgood nm1 fc1 aft it1 ->
-  lgood (nm0 ++ nm1)
-        (match fc0, fc1 with
-         | FNotFound, f => f
-         | f, FNotFound => f
-         | FNo, FNo => FNo
-         | _, _ => FErr
-         end) aft (mergeIter it0 it1).
+  lgood (nm0 ++ nm1) (fc_merge fc0 fc1) aft (mergeIter it0 it1).
 Proof.
   intros (xs0 & oe0 & Hrep0 & Hs0 & Hin0 & Hfc0) (xs1 & oe1 & Hrep1 & Hs1 & Hin1 & Hfc1).
   pose proof (mergeIter_represents _ _ _ _ _ _ Hrep0 Hrep1) as Hrep.
@@ -855,7 +851,7 @@ Proof.
   { intros x Hx. apply merged_In in Hx as [Hx|Hx]; [destruct (Hin0 x Hx) | destruct (Hin1 x Hx)];
       split; auto; apply in_or_app; auto. }
   unfold merge_result in Hrep.
-  destruct fc0, fc1.
+  destruct fc0, fc1; cbn [fc_merge].
   - (* both complete *)
     destruct Hfc0 as [-> Hc0], Hfc1 as [-> Hc1]. cbn in Hrep. exists u, None.
     repeat split; auto; try apply Hinu; auto.
